@@ -260,6 +260,10 @@ def run(res, replay=None):
         # page-id allocation and reuse across restarts: extracted model (Model/PageAlloc.v, theorems of Props/C13Alloc.v) against a real
         # engine instance (lib/alloccorr.py, verifharness pagealloc) with an owner-tracking oracle; probes of the repaired
         # F-ALLOC-BEYOND-FILE (regression) and of the listed finding F-ALLOC-LOG-RACE
+        # the replacer itself (Model/Clock.v, theorems of Props/C13Clock.v: it refines the membership set the pool model uses, and its
+        # victim sequence is that of a first-in-first-out queue) against buffer.ClockReplacer, every answer and the whole ring compared
+        import clockcorr
+        clockcorr.run_corr(res, random.Random(res.seed * 7919 + 132), 300 if res.tier == "quick" else 5000)
         import alloccorr
         alloccorr.run_corr(res, random.Random(res.seed * 7919 + 131), 60 if res.tier == "quick" else 800)
         alloccorr.run_db_probe(res)
